@@ -560,7 +560,7 @@ func laConfig() *config.Dcp {
 	cfg := &config.Dcp{BucketName: "b"}
 	cfg.Dcp.Group.Name = "g"
 	cfg.Dcp.Group.Membership.Type = membership.StaticMembershipType
-	cfg.Dcp.Group.Membership.RebalanceDelay = 50 * time.Millisecond
+	cfg.Dcp.Group.Membership.RebalanceDelay = 5 * time.Millisecond
 	cfg.Checkpoint.Type = "manual"
 	cfg.Metadata.Type = "couchbase"
 	cfg.ApplyDefaults()
